@@ -54,12 +54,33 @@ def check_polynomial_detrend(ctx, rule="R1-least-squares-polynomial-removed"):
                 return Marker("vander", t=args[0], M=kw.get("N", args[1] if len(args) > 1 else None), increasing=kw.get("increasing", False))
             if name == "numpy.linalg.lstsq":
                 V = args[0]
-                m = Marker("fit", t=V.info.get("t") if isinstance(V, Marker) else None, y=args[1], deg=(to_x(V.info.get("M")) - 1) if isinstance(V, Marker) and to_x(V.info.get("M")) is not None else None, via="lstsq")
+                m = Marker("fit", t=V.info.get("t") if isinstance(V, Marker) else None, y=args[1], deg=(to_x(V.info.get("M")) - 1) if isinstance(V, Marker) and to_x(V.info.get("M")) is not None else None, via="lstsq", basis=V)
                 fits.append(m); return (m, Opaque("residuals"), Opaque("rank"), Opaque("sv"))
+            if name == "numpy.linalg.norm" and args and isinstance(args[0], Marker) and args[0].kind == "vander":
+                ax = to_x(kw.get("axis")) if kw.get("axis") is not None else None
+                if ax is not None and ax.as_int() == 0: return Marker("colnorm", of=args[0])
+                return Opaque("norm of the basis matrix")
             return NotImplemented
         I.hooks["lib"] = lib
 
+        def expr(I_, n, st):
+            # A / np.linalg.norm(A, axis=0): rescaling the columns of the basis matrix leaves its column space unchanged
+            if isinstance(n, ast.BinOp) and isinstance(n.op, (ast.Div, ast.Mult)):
+                a = I_.eval(n.left, st); b = I_.eval(n.right, st)
+                if isinstance(a, Marker) and a.kind == "vander" and isinstance(b, Marker) and b.kind == "colnorm" and b.info["of"] is a and isinstance(n.op, ast.Div):
+                    return Marker("vander", t=a.info["t"], M=a.info["M"], increasing=a.info.get("increasing", False), scaled=True)
+                return I_.binop(n.op, a, b)
+            return NotImplemented
+        I.hooks["expr"] = expr
+
         def matmul(I_, a, b, fits=fits):
+            # A @ lstsq(A, y): the least-squares fit evaluated on the very matrix it was fitted with = projection on its column space
+            if isinstance(a, Marker) and a.kind == "vander" and isinstance(b, Marker) and b.kind == "fit" and b.info.get("via") == "lstsq":
+                if b.info.get("basis") is not a: return Mismatch("the least-squares coefficients are evaluated on a different matrix than they were fitted with")
+                Y = as_arr(b.info["y"])
+                if Y is None: return Opaque("fitted data")
+                b.info["t_eval"] = a.info.get("t")
+                return Arr(Y.axes, mk_fn(f"lsq_poly#{fits.index(b) + 1}", [X.var(Y.axes[0][0])], "real"))
             # x - Q (Q^T x): orthogonal projection on the column space of the QR-factorised basis matrix
             if isinstance(a, tuple) and len(a) == 2 and a[0] == "QT" and isinstance(b, (ArrParam, Arr)):
                 return Marker("coef", Q=a[1], y=b)
@@ -439,3 +460,90 @@ def check_get_rms(ctx, rule="R4-result-rms-delegates"):
     if not okr:
         okr = all((to_x(l) is not None and to_x(l).eq(X.var("RMS"))) for _, l in pv_leaves(r))
     (ctx.holds if okr else ctx.violated)(rule, key + "[result]", "the integral is returned unchanged" if okr else f"result is {r!r}"[:160], where)
+
+
+# ---------------------------------------------------------------------------- powers of the sample index are taken in floating point
+_INT_FUNCS = {"len", "int", "range", "round"}
+_FLOAT_CTORS = {"float", "float64", "linspace", "double", "float_"}
+
+
+def _is_floatish(e):
+    s_ = ast.unparse(e)
+    return any(t in s_ for t in ("float", "double", "np.float64", "'f8'", '"f8"', "'d'"))
+
+
+def _intness(fn):
+    """ordered pass over the function: names bound to integer-valued scalars/arrays ('int'), to floating ones ('float'), else unknown."""
+    kind = {}
+
+    def k(e):
+        if isinstance(e, ast.Constant):
+            return "int" if isinstance(e.value, int) and not isinstance(e.value, bool) else "float" if isinstance(e.value, float) else None
+        if isinstance(e, ast.Name): return kind.get(e.id)
+        if isinstance(e, ast.Attribute) and e.attr in ("size", "ndim"): return "int"
+        if isinstance(e, ast.Subscript) and isinstance(e.value, ast.Attribute) and e.value.attr == "shape": return "int"
+        if isinstance(e, ast.UnaryOp): return k(e.operand)
+        if isinstance(e, ast.BinOp):
+            a, b = k(e.left), k(e.right)
+            if isinstance(e.op, ast.Div): return "float"
+            if "float" in (a, b): return "float"
+            if a == "int" and b == "int": return "int"
+            return None
+        if isinstance(e, ast.Call):
+            f = ast.unparse(e.func).split(".")[-1]
+            dt = next((kw.value for kw in e.keywords if kw.arg == "dtype"), None)
+            if f == "astype" and e.args: return "float" if _is_floatish(e.args[0]) else ("int" if "int" in ast.unparse(e.args[0]) else None)
+            if dt is not None: return "float" if _is_floatish(dt) else ("int" if "int" in ast.unparse(dt) else None)
+            if f in _INT_FUNCS: return "int"
+            if f in _FLOAT_CTORS: return "float"
+            if f == "arange":
+                ks = [k(a) for a in e.args]
+                return "int" if ks and all(x == "int" for x in ks) else ("float" if "float" in ks else None)
+            if f in ("asarray", "array", "ascontiguousarray", "copy", "abs", "reshape", "ravel") and e.args: return k(e.args[0])
+            if f in ("reshape", "ravel", "copy") and isinstance(e.func, ast.Attribute): return k(e.func.value)
+        return None
+
+    order = sorted((n for n in ast.walk(fn) if isinstance(n, (ast.Assign, ast.AugAssign, ast.AnnAssign))), key=lambda n: (n.lineno, n.col_offset))
+    for n in order:
+        tg = n.targets if isinstance(n, ast.Assign) else [n.target]
+        if n.value is None: continue
+        v = k(n.value) if not isinstance(n, ast.AugAssign) else k(ast.BinOp(n.target, n.op, n.value))
+        for t in tg:
+            if isinstance(t, ast.Name):
+                # several bindings: integer only if every binding is integer
+                kind[t.id] = v if (t.id not in kind or kind[t.id] == v) else None
+    return kind, k
+
+
+def check_powers_in_float(ctx, fname="polynomial_detrend", rule="R6-powers-in-floating-point", max_order=5):
+    """np.vander / ** / np.power of an integer sample axis are evaluated in int64 and wrap around silently once (n-1)**p > 2**63 (order 5: n > 6208):
+    the highest-degree basis column is garbage and polynomials of that degree are no longer removed. np.polyfit / np.polyval convert to float first."""
+    repo = ctx.repo
+    key = f"{DSP}::{fname}"; fn = repo.get(key); where = repo.where(key, fn)
+    kind, k = _intness(fn)
+    sites = 0; bad = 0
+    for n in ast.walk(fn):
+        base = expo = None
+        if isinstance(n, ast.Call):
+            f = ast.unparse(n.func).split(".")[-1]
+            if f == "vander" and n.args: base, expo = n.args[0], "columns"
+            elif f in ("power", "float_power") and len(n.args) >= 2 and f == "power": base, expo = n.args[0], n.args[1]
+        elif isinstance(n, ast.BinOp) and isinstance(n.op, ast.Pow): base, expo = n.left, n.right
+        if base is None: continue
+        if k(base) != "int": continue
+        small = isinstance(expo, ast.Constant) and isinstance(expo.value, int) and expo.value <= 2
+        if expo != "columns" and (small or k(expo) == "float"): continue
+        if expo != "columns" and not isinstance(base, ast.Name): continue          # scalar integer arithmetic on lengths (n ** 2 of a python int never wraps)
+        if expo != "columns" and kind.get(getattr(base, "id", None)) == "int" and not _is_array_name(fn, base.id): continue
+        sites += 1; bad += 1
+        ctx.violated(rule, f"{key}[{' '.join(ast.unparse(n).split())[:60]}]", f"powers of the integer sample axis '{ast.unparse(base)}' are computed in int64: for orders up to {max_order} they wrap "
+                     f"around once (n-1)**p exceeds 2**63-1 (p=5: records longer than 6208 samples), so the top basis column is garbage and degree-p polynomials are not removed", f"{DSP}:{n.lineno}")
+    if not bad:
+        ctx.holds(rule, key, "no integer-typed sample axis is raised to a power (np.polyfit / np.polyval and float abscissae work in double precision)", where)
+
+
+def _is_array_name(fn, name):
+    for n in ast.walk(fn):
+        if isinstance(n, ast.Assign) and any(isinstance(t, ast.Name) and t.id == name for t in n.targets) and isinstance(n.value, ast.Call):
+            if ast.unparse(n.value.func).split(".")[-1] in ("arange", "asarray", "array", "indices"): return True
+    return False
